@@ -152,3 +152,40 @@ def consumption(call, gflag):
             n -= 1
         return used, gflag
     raise ValueError(name)
+
+# ---------------------------------------------------------------------------------- states that round onto max
+def naive_scaled(lo, hi, s):
+    """min+(max-min)*u in double arithmetic, the formula the anchors name"""
+    return lo + (hi - lo) * (s / M)
+
+def rounding_band(lo, hi):
+    """smallest state whose scaled uniform reaches max in double arithmetic (the map is monotone in the state, so the band
+    is [result, 2**30-1]); None when even the largest state stays below max"""
+    if not (hi > lo) or naive_scaled(lo, hi, M - 1) < hi:
+        return None
+    a, b = 0, M - 1          # invariant: naive(a) < hi <= naive(b)   (naive(0) == lo < hi)
+    while b - a > 1:
+        mid = (a + b) // 2
+        if naive_scaled(lo, hi, mid) >= hi:
+            b = mid
+        else:
+            a = mid
+    return b
+
+_CHAIN_CACHE = {}
+def redraw_chains(lo, hi, limit=1 << 18):
+    """states of the rounding band whose successor is in the band too, as (state, chain length): a generator that redraws
+    must redraw `chain length` times in a row when a call starts on that state. Found by walking the band (not hard-coded)."""
+    key = (repr(lo), repr(hi))
+    if key not in _CHAIN_CACHE:
+        first = rounding_band(lo, hi)
+        out = []
+        if first is not None and M - first <= limit:
+            for s in range(first, M):
+                t, k = step(s), 1
+                while t >= first:
+                    t, k = step(t), k + 1
+                if k >= 2:
+                    out.append((s, k))
+        _CHAIN_CACHE[key] = out
+    return _CHAIN_CACHE[key]
